@@ -16,7 +16,14 @@ for d in sorted(glob.glob('/verif/seeded/C*-*/meta.json')):
 s=open('/verif/DESIGN.md').read()
 i=s.index('| seeded change | needs, in order to manifest | reported by (finding keys) |')
 head='| seeded change | needs, in order to manifest | reported by (finding keys) |\n|---|---|---|\n'
-s=s[:i]+head+'\n'.join(rows)+'\n'
+# the table ends at the first line that does not start with '|'
+j=i
+lines=s[i:].split('\n')
+k=0
+while k < len(lines) and lines[k].startswith('|'):
+    k+=1
+rest='\n'.join(lines[k:])
+s=s[:i]+head+'\n'.join(rows)+'\n'+rest
 s=re.sub(r'produced \d+ changes that compile', f'produced {total} changes that compile', s)
 s=re.sub(r'Result: \*\*\d+ of \d+ are reported by the quick check of their\nown property\*\*', f'Result: **{own_caught} of {total} are reported by the quick check of their\nown property**', s)
 open('/verif/DESIGN.md','w').write(s)
